@@ -1533,6 +1533,18 @@ class ReceivePackHandler(PackHandler):
                                     "Attempted to delete refs without "
                                     "delete-refs capability."
                                 )
+                        elif sha not in self.repo.object_store:
+                            ref_status = b"missing necessary objects"
+                            has_failure = True
+                        # All-or-nothing: every old value has to be current
+                        # before anything is applied
+                        try:
+                            current = self.repo.refs[ref]
+                        except KeyError:
+                            current = zero_sha
+                        if ref_status == b"ok" and current != oldsha:
+                            ref_status = b"failed to update ref"
+                            has_failure = True
                     except KeyError:
                         ref_status = b"bad ref"
                         has_failure = True
